@@ -108,29 +108,34 @@ def inline_into(raw, raws, should_inline, stack=(), depth=0, log=None):
             i += 1
             continue
         g = inline_into(g, raws, should_inline, stack + (raw['path'],), depth + 1, log)
-        loff = len(out['locals'])
-        boff = len(out['blocks'])
-        out['locals'] = out['locals'] + copy.deepcopy(g['locals'])
-        for d in g.get('debug', []):
-            out['debug'].append({'name': d['name'], 'place': _shift(d['place'], loff, 0), 'arg': None})
-        # arguments
-        for k, a in enumerate(t['args']):
-            lt = g['locals'][k + 1]['ty']
-            b['stmts'].append({'k': 'assign', 'place': {'l': loff + k + 1, 'p': [], 'ty': lt}, 'rv': {'k': 'use', 'op': a}, 'line': t.get('line'),
-                               'exp': bool(t.get('exp')), 'inl': True})
-        ret0 = {'l': loff, 'p': [], 'ty': g['locals'][0]['ty']}
-        unwind_to = t.get('unwind')
-        for gb in g['blocks']:
-            stmts = []
-            for s in gb['stmts']:
-                s2 = _shift(s, loff, boff)
-                s2.setdefault('file', g['file'])
-                stmts.append(s2)
-            extra, term = _shift_term(gb['term'], loff, boff, t.get('target'), t['dest'], ret0, unwind_to, g['file'])
-            out['blocks'].append({'cleanup': gb['cleanup'] or b['cleanup'], 'stmts': stmts + extra, 'term': term, 'inlined_from': p})
-        b['term'] = {'k': 'goto', 'target': boff, 'line': t.get('line'), 'file': t.get('file'), 'inlined_call': p}
-        out.setdefault('inlined', []).append(p)
+        splice(out, i, g, t['args'], t['dest'], t.get('target'), t.get('unwind'), t, p)
         if log is not None:
             log.append((raw['path'], p))
         i += 1
     return out
+
+
+def splice(out, i, g, args, dest, target, unwind_to, t, p):
+    """replace the terminator of block i of `out` by the body `g` called with `args` (one operand per parameter of g),
+    writing its result to `dest` and continuing at `target`"""
+    b = out['blocks'][i]
+    loff = len(out['locals'])
+    boff = len(out['blocks'])
+    out['locals'] = out['locals'] + copy.deepcopy(g['locals'])
+    for d in g.get('debug', []):
+        out['debug'].append({'name': d['name'], 'place': _shift(d['place'], loff, 0), 'arg': None})
+    for k, a in enumerate(args):
+        lt = g['locals'][k + 1]['ty']
+        b['stmts'].append({'k': 'assign', 'place': {'l': loff + k + 1, 'p': [], 'ty': lt}, 'rv': {'k': 'use', 'op': a}, 'line': t.get('line'),
+                           'exp': bool(t.get('exp')), 'inl': True})
+    ret0 = {'l': loff, 'p': [], 'ty': g['locals'][0]['ty']}
+    for gb in g['blocks']:
+        stmts = []
+        for s in gb['stmts']:
+            s2 = _shift(s, loff, boff)
+            s2.setdefault('file', g['file'])
+            stmts.append(s2)
+        extra, term = _shift_term(gb['term'], loff, boff, target, dest, ret0, unwind_to, g['file'])
+        out['blocks'].append({'cleanup': gb['cleanup'] or b['cleanup'], 'stmts': stmts + extra, 'term': term, 'inlined_from': p})
+    b['term'] = {'k': 'goto', 'target': boff, 'line': t.get('line'), 'file': t.get('file'), 'inlined_call': p}
+    out.setdefault('inlined', []).append(p)
